@@ -508,6 +508,7 @@ class Pipe:
         self.frames: list[int] = []  # sizes of complete writes not yet granted
         self.force_eof = False
         self.reader_waiting = False
+        self.record = bytearray()  # every byte handed to write(), also beyond a cut (for frame-exact oracles)
 
     def grant_frame(self):
         """let the reader consume the next complete write (= one frame)"""
@@ -521,6 +522,7 @@ class Pipe:
         return len(self.buf)
 
     def _deliver(self, data):
+        self.record += data
         if self.cut_at is not None:
             room = self.cut_at - self.total_written
             if room <= 0:
